@@ -400,7 +400,10 @@ class BucketSearch(UHSEnumerator[U, V, W]):
     def adjust_priority_for_start(
         self, priority: Ordered, start: Tuple[Type, U]
     ) -> Ordered:
-        return priority.add_prob_uniform(self.G.start_tags[start])  # type: ignore
+        # on a copy: priority is also the key of the program in the heap of start
+        adjusted = Bucket(self.bucket_size)
+        adjusted += priority  # type: ignore
+        return adjusted.add_prob_uniform(self.G.start_tags[start])
 
     def __prob__(
         self, succ: Function, S: Tuple[Type, U], Si: Tuple[Type, U], info: W, i: int
